@@ -113,7 +113,7 @@ def ir_search_shape(fi: FuncInfo, partial_bound_ok: Optional[bool] = None):
             obs.append(("exit", ok, f"return {norm(ex.value)} under {[t[:40] for t in txt]}", "the only early exit of the branching loop propagates an explicit early stop", ex))
         elif isinstance(ex, ast.Continue):
             recognised = len(gs) == 1 and gs[0][1] and norm(gs[0][0]).replace(" ", "") == "best['label']isnotNoneandpartial_label>best['label']"
-            ok = (True if (recognised and partial_bound_ok) else (None if recognised else False))
+            ok = (True if (recognised and partial_bound_ok) else (None if (recognised and partial_bound_ok is None) else False))
             obs.append(("prune", ok, f"continue under {txt}", "a branch is pruned only by a bound that is a lower bound of every label in its subtree", ex))
         else:
             obs.append(("exit", False, f"break under {txt}", "the branching loop is never cut short", ex))
